@@ -59,11 +59,12 @@ theorem writeLoop_replays (cfg : Cfg) (ws : List (G1W × Rat)) :
       σ.shutter = cs.shutterOn → (∀ w', prev = some w' → σ.pos = posOf w') →
       movesOf (execFlat (flattenStmts (writeLoop cfg prev ws cs).1) σ).2 = expectedFrom σ.pos ws ∧
       (execFlat (flattenStmts (writeLoop cfg prev ws cs).1) σ).1.shutter = (writeLoop cfg prev ws cs).2.shutterOn ∧
-      (execFlat (flattenStmts (writeLoop cfg prev ws cs).1) σ).1.absMode = true := by
+      (execFlat (flattenStmts (writeLoop cfg prev ws cs).1) σ).1.absMode = true ∧
+      (execFlat (flattenStmts (writeLoop cfg prev ws cs).1) σ).1.pos = lastPos σ.pos ws := by
   induction ws with
   | nil =>
     intro prev cs σ _ _ habs hsh _
-    simp [writeLoop, flattenStmts, execFlat, movesOf, expectedFrom, hsh, habs]
+    simp [writeLoop, flattenStmts, execFlat, movesOf, expectedFrom, lastPos, hsh, habs]
   | cons hd rest ih =>
     obtain ⟨w, s⟩ := hd
     intro prev cs σ hfull hs habs hsh hprev
@@ -74,11 +75,11 @@ theorem writeLoop_replays (cfg : Cfg) (ws : List (G1W × Rat)) :
     obtain ⟨g1, g2, g3, g4⟩ := maybeG1_exec (toggleStep cfg s cs).2 prev w σ1 hw (by rw [t2]; exact habs)
       (fun _ w' hw' => by rw [t1]; exact hprev w' hw')
     set σ2 := (execFlat (flattenStmts (maybeG1 (toggleStep cfg s cs).2 prev w)) σ1).1 with hσ2
-    obtain ⟨r1, r2, r3⟩ := ih (some w) (toggleStep cfg s cs).1.2 σ2
+    obtain ⟨r1, r2, r3, r4⟩ := ih (some w) (toggleStep cfg s cs).1.2 σ2
       (fun p hp => hfull p (by simp [hp])) (fun p hp => hs p (by simp [hp])) g2 (by rw [g3, t3, t5])
       (fun w' hw' => by injection hw' with hw'; rw [g1, hw'])
     simp only [writeLoop, flattenStmts_append, execFlat_append, movesOf_append]
-    refine ⟨?_, r2, r3⟩
+    refine ⟨?_, r2, r3, by rw [r4, g1]; simp [lastPos]⟩
     rw [t4, g4, r1, t1, t3, g1]
     simp [expectedFrom]
 
@@ -147,7 +148,7 @@ theorem write_replays (cfg : Cfg) (m : List Pt) (cs : CS) (o : Out) (σ : St) (w
   rw [hp] at hw
   simp only [Except.map] at hw
   injection hw with hw; subst hw
-  obtain ⟨r1, r2, r3⟩ := writeLoop_replays cfg ws none cs σ (fun p h => (hf p h).1) hs' habs hsh (by simp)
+  obtain ⟨r1, r2, r3, _⟩ := writeLoop_replays cfg ws none cs σ (fun p h => (hf p h).1) hs' habs hsh (by simp)
   obtain ⟨q1, s1⟩ := dwell_quiet cfg.longPause (writeLoop cfg none ws cs).2
   simp only [seq, flattenStmts_append, execFlat_append, movesOf_append, flattenStmts_emit]
   obtain ⟨a1, a2, a3, a4⟩ := execFlat_quiet _ q1 (execFlat (flattenStmts (writeLoop cfg none ws cs).1) σ).1
@@ -158,6 +159,92 @@ theorem write_replays (cfg : Cfg) (m : List Pt) (cs : CS) (o : Out) (σ : St) (w
   · rw [r1, a4, b4]; simp
   · rw [b3, a3, r2, s1]
 
+/-- after `write`, the controller stands on the last printed point, still in absolute mode -/
+theorem write_final_state (cfg : Cfg) (m : List Pt) (cs : CS) (o : Out) (σ : St) (ws : List (G1W × Rat))
+    (hw : write cfg m cs = .ok o) (hp : printed cfg m = .ok ws) (hs : ∀ p ∈ m, p.s = 0 ∨ p.s = 1)
+    (habs : σ.absMode = true) (hsh : σ.shutter = cs.shutterOn) :
+    (execFlat (flattenStmts o.1) σ).1.pos = lastPos σ.pos ws ∧ (execFlat (flattenStmts o.1) σ).1.absMode = true := by
+  obtain ⟨hf, hsnd⟩ := printed_full cfg m ws hp
+  have hs' : ∀ p ∈ ws, p.2 = 0 ∨ p.2 = 1 := by
+    intro p hp'
+    have : p.2 ∈ ws.map Prod.snd := List.mem_map_of_mem hp'
+    rw [hsnd] at this
+    obtain ⟨pt, hpt, he⟩ := List.mem_map.mp this
+    rw [← he]; exact hs pt hpt
+  unfold write at hw
+  unfold printed at hp
+  rw [hp] at hw
+  simp only [Except.map] at hw
+  injection hw with hw; subst hw
+  obtain ⟨r1, r2, r3, r4⟩ := writeLoop_replays cfg ws none cs σ (fun p h => (hf p h).1) hs' habs hsh (by simp)
+  obtain ⟨q1, s1⟩ := dwell_quiet cfg.longPause (writeLoop cfg none ws cs).2
+  simp only [seq, flattenStmts_append, execFlat_append, flattenStmts_emit]
+  obtain ⟨a1, a2, a3, a4⟩ := execFlat_quiet _ q1 (execFlat (flattenStmts (writeLoop cfg none ws cs).1) σ).1
+  obtain ⟨b1, b2, b3, b4⟩ := execFlat_quiet [Instr.blank] (by simp [quiet])
+    (execFlat (flattenStmts (dwell cfg.longPause (writeLoop cfg none ws cs).2).1)
+      (execFlat (flattenStmts (writeLoop cfg none ws cs).1) σ).1).1
+  exact ⟨by rw [b1, a1, r4], by rw [b2, a2, r3]⟩
+
+/-- the compiler's shutter belief after the point loop: the mark of the last row (rows marked 0 / 1) -/
+theorem writeLoop_final_shutter (cfg : Cfg) (ws : List (G1W × Rat)) :
+    ∀ (prev : Option G1W) (cs : CS), (∀ p ∈ ws, p.2 = 0 ∨ p.2 = 1) →
+      (writeLoop cfg prev ws cs).2.shutterOn = (match ws.getLast? with | some p => decide (p.2 = 1) | none => cs.shutterOn) := by
+  induction ws with
+  | nil => intro prev cs _; simp [writeLoop]
+  | cons hd rest ih =>
+    obtain ⟨w, s⟩ := hd
+    intro prev cs hs
+    have hs0 : s = 0 ∨ s = 1 := hs (w, s) (by simp)
+    have t5 : (toggleStep cfg s cs).1.2.shutterOn = decide (s = 1) := by
+      rcases hs0 with rfl | rfl
+      · cases hc : cs.shutterOn
+        · simp [toggleStep, hc]
+        · have := (toggle_shape cfg false cs (by simp [hc])).choose_spec.choose_spec.2.2.2
+          simp [toggleStep, hc, this]
+      · cases hc : cs.shutterOn
+        · have := (toggle_shape cfg true cs (by simp [hc])).choose_spec.choose_spec.2.2.2
+          simp [toggleStep, hc, this]
+        · simp [toggleStep, hc]
+    simp only [writeLoop]
+    rw [ih (some w) _ (fun p hp => hs p (by simp [hp]))]
+    cases rest with
+    | nil => simp [t5]
+    | cons a b =>
+      rw [List.getLast?_cons_cons]
+      cases h : (a :: b).getLast? with
+      | none => simp at h
+      | some p => rfl
+
+/-- the compiler's shutter belief after `write`: the mark of the last row -/
+theorem write_final_shutter (cfg : Cfg) (m : List Pt) (cs : CS) (o : Out)
+    (hw : write cfg m cs = .ok o) (hs : ∀ p ∈ m, p.s = 0 ∨ p.s = 1) :
+    o.2.shutterOn = (match m.getLast? with | some p => decide (p.s = 1) | none => cs.shutterOn) := by
+  cases hp : printed cfg m with
+  | error e => unfold write at hw; unfold printed at hp; rw [hp] at hw; simp [Except.map] at hw
+  | ok ws =>
+    obtain ⟨hf, hsnd⟩ := printed_full cfg m ws hp
+    have hs' : ∀ p ∈ ws, p.2 = 0 ∨ p.2 = 1 := by
+      intro p hp'
+      have : p.2 ∈ ws.map Prod.snd := List.mem_map_of_mem hp'
+      rw [hsnd] at this
+      obtain ⟨pt, hpt, he⟩ := List.mem_map.mp this
+      rw [← he]; exact hs pt hpt
+    unfold write at hw
+    unfold printed at hp
+    rw [hp] at hw
+    simp only [Except.map] at hw
+    injection hw with hw; subst hw
+    simp only [seq]
+    rw [(dwell_quiet cfg.longPause (writeLoop cfg none ws cs).2).2, writeLoop_final_shutter cfg ws none cs hs']
+    have h1 : (ws.getLast?).map Prod.snd = (m.getLast?).map (·.s) := by
+      rw [← List.getLast?_map, ← List.getLast?_map, hsnd]
+    cases hl : ws.getLast? with
+    | none => cases hm : m.getLast? with
+      | none => rfl
+      | some q => rw [hl, hm] at h1; simp at h1
+    | some p => cases hm : m.getLast? with
+      | none => rw [hl, hm] at h1; simp at h1
+      | some q => rw [hl, hm] at h1; simp at h1; simp [h1]
 /-- the first point is reached with the shutter closed: if the first row is marked closed, the first move (if the
 machine is not already there) is made with the shutter closed — whatever the shutter state was before -/
 theorem first_point_closed (prev : Pos) (w : G1W) (rest : List (G1W × Rat)) (mv : Move)
